@@ -1,5 +1,5 @@
 use super::PxE2;
-use crate::u32_with_sign;
+use crate::{u32_with_sign, u32_zero_shr};
 use core::{mem, ops};
 
 impl<const N: u32> ops::Neg for PxE2<{ N }> {
@@ -157,7 +157,7 @@ impl<const N: u32> PxE2<{ N }> {
                 let mut bits_more = false;
                 let mut bit_n_plus_one = false;
                 if reg_a < N {
-                    if reg_a <= (N - 4) {
+                    if reg_a + 4 <= N {
                         bit_n_plus_one = (((0x_8000_0000_u64) << (32 - N)) & frac64_a) != 0;
                     //exp_a <<= (28-reg_a);
                     } else {
@@ -185,7 +185,8 @@ impl<const N: u32> PxE2<{ N }> {
                 }
                 frac_a &= Self::mask();
 
-                exp_a <<= 28 - reg_a;
+                // (a 29- or 30-bit regime leaves room for one or no exponent bit)
+                exp_a = if reg_a <= 28 { exp_a << (28 - reg_a) } else { exp_a >> (reg_a - 28) };
                 let mut u_z = Self::pack_to_ui(regime, exp_a as u32, frac_a);
 
                 //n+1 frac bit is 1. Need to check if another bit is 1 too if not round to even
@@ -284,7 +285,7 @@ impl<const N: u32> PxE2<{ N }> {
                 let mut bits_more = false;
                 let mut bit_n_plus_one = false;
                 if reg_a < N {
-                    if reg_a <= (N - 4) {
+                    if reg_a + 4 <= N {
                         bit_n_plus_one = (((0x_8000_0000_u64) << (32 - N)) & frac64_a) != 0;
                     //exp_a <<= (28-reg_a);
                     } else {
@@ -312,7 +313,8 @@ impl<const N: u32> PxE2<{ N }> {
                 }
                 frac_a &= Self::mask();
 
-                exp_a <<= 28 - reg_a;
+                // (a 29- or 30-bit regime leaves room for one or no exponent bit)
+                exp_a = if reg_a <= 28 { exp_a << (28 - reg_a) } else { exp_a >> (reg_a - 28) };
                 let mut u_z = Self::pack_to_ui(regime, exp_a as u32, frac_a);
 
                 //n+1 frac bit is 1. Need to check if another bit is 1 too if not round to even
@@ -404,7 +406,7 @@ impl<const N: u32> ops::Mul for PxE2<{ N }> {
                 let mut bit_n_plus_one = false;
                 let mut bits_more = false;
                 if reg_a < N {
-                    if reg_a <= (N - 4) {
+                    if reg_a + 4 <= N {
                         bit_n_plus_one = ((0x_8000_0000_0000_0000_u64 >> N) & frac64_z) != 0;
                         bits_more = ((0x_7FFF_FFFF_FFFF_FFFF >> N) & frac64_z) != 0;
                         frac_a &= Self::mask();
@@ -434,7 +436,8 @@ impl<const N: u32> ops::Mul for PxE2<{ N }> {
                     frac_a = 0;
                 }
 
-                exp_a <<= 28 - reg_a;
+                // (a 29- or 30-bit regime leaves room for one or no exponent bit)
+                exp_a = if reg_a <= 28 { exp_a << (28 - reg_a) } else { exp_a >> (reg_a - 28) };
                 let mut u_z = Self::pack_to_ui(regime, exp_a as u32, frac_a);
 
                 if bit_n_plus_one {
@@ -516,13 +519,13 @@ impl<const N: u32> ops::Div for PxE2<{ N }> {
             } else {
                 //remove carry and rcarry bits and shift to correct position
                 let frac64_z = (frac64_z & 0x_3FFF_FFFF) as u32;
-                frac_a = frac64_z >> (reg_a + 2);
+                frac_a = u32_zero_shr(frac64_z, reg_a + 2);
 
                 //regime length is smaller than length of posit
                 let mut bit_n_plus_one = false;
                 let mut bits_more = false;
                 if reg_a < N {
-                    if reg_a <= (N - 4) {
+                    if reg_a + 4 <= N {
                         bit_n_plus_one = ((0x_8000_0000_u32 >> (N - reg_a - 2)) & frac64_z) != 0;
                         bits_more = ((0x_7FFF_FFFF >> (N - reg_a - 2)) & frac64_z) != 0;
                         frac_a &= Self::mask();
@@ -555,7 +558,8 @@ impl<const N: u32> ops::Div for PxE2<{ N }> {
                     frac_a = 0;
                 }
 
-                exp_a <<= 28 - reg_a;
+                // (a 29- or 30-bit regime leaves room for one or no exponent bit)
+                exp_a = if reg_a <= 28 { exp_a << (28 - reg_a) } else { exp_a >> (reg_a - 28) };
                 let mut u_z = Self::pack_to_ui(regime, exp_a as u32, frac_a);
 
                 if bit_n_plus_one {
